@@ -381,7 +381,56 @@ def required_cells(tier):
                 cells.append('asserted:%s/%s/%s' % (wf, ied, ell))
     cells += ['kind:' + k for k in KINDS] + ['msg:' + m for m in MSGS] + ['pos:' + p for p in POSITIONS]
     cells += ['on_error:return', 'on_error:raise']
+    cells += ['outcome-exception:' + n for n, _ in OUTCOME_RAISERS]
     return cells
+
+
+OUTCOME_RAISERS = [
+    ('pytest.fail', ['>>> pytest.fail("outcome %d")']),
+    ('pytest.raises-did-not-raise', ['>>> with pytest.raises(ValueError):', '...     quiet(%d)']),
+    ('pytest.xfail', ['>>> pytest.xfail("expected to fail %d")']),
+    ('pytest.exit', ['>>> raise pytest.exit.Exception("stop %d")']),
+]
+
+
+def probe_outcome_exceptions(ctx):
+    """exceptions that do not derive from Exception (pytest's outcome exceptions other than Skipped): they are
+    exceptions raised by doctest code too.  Whether run() returns a failed summary or lets them propagate, the
+    doctest must not be reported as passed and nothing after the raising statement may run"""
+    from xdoctest import doctest_example
+    try:
+        import pytest
+    except ImportError:
+        ctx.unavailable.add('pytest (outcome exceptions)')
+        return
+    for name, lines in OUTCOME_RAISERS:
+        for want in ([], ['some ordinary output']):
+            for on_error in ('return', 'raise'):
+                for pos in ('first', 'middle'):
+                    L = []
+                    before = []
+                    if pos == 'middle':
+                        L += ['>>> quiet(1)', '>>> print("x")', 'x']
+                        before = [1]
+                    L += [ln % 7 if '%d' in ln else ln for ln in lines] + want + ['>>> quiet(9)']
+                    if 'did-not-raise' in name:
+                        before = before + [7]
+                    doc = '\n'.join(L)
+                    case = {'probe': 'outcome', 'raiser': name, 'doc': doc, 'on_error': on_error}
+                    ctx.evaluation()
+                    ctx.nontrivial((doc, on_error))
+                    dt = doctest_example.DocTest(doc)
+                    ns = extra_ns()
+                    ns['pytest'] = pytest
+                    rec = harness.run_doctest(dt, on_error=on_error, extra_ns=ns)
+                    ctx.event('doctest_runs')
+                    passed = rec.raised is None and rec.summary is not None and rec.summary['passed']
+                    if passed or rec.T != before:
+                        ctx.violation('swallowed', 'the doctest code raised %s (want %r); the run %s and the event log is %r, '
+                                      'expected %r: the exception was swallowed\n--- docstring ---\n%s' % (
+                                          name, want, 'reports passed' if passed else 'did not pass', rec.T, before, doc), case)
+                    else:
+                        ctx.cell('outcome-exception:' + name)
 
 
 def run_shard(ctx):
@@ -400,6 +449,8 @@ def run_shard(ctx):
         run_cell(ctx, *cell, ctxno=ctxno + 100 * ctx.seed if ctxno else (100 * ctx.seed), on_error=on_error)
     if ctx.shard == 0:
         probe_f10(ctx)
+    if ctx.shard == 1 % ctx.nshards:
+        probe_outcome_exceptions(ctx)
 
 
 def replay(case, ctx):
@@ -408,6 +459,9 @@ def replay(case, ctx):
     _module()
     if case.get('probe') == 'F10':
         probe_f10(ctx)
+        return
+    if case.get('probe') == 'outcome':
+        probe_outcome_exceptions(ctx)
         return
     run_cell(ctx, case['kind'], case['msg'], case['pos'], case['want_form'], tuple(case['flags']), case['ctxno'],
              case['on_error'])
